@@ -50,7 +50,7 @@ COMPONENTS = {
 }
 ASSUMPTIONS = {
     "*": ["the reference HOTP (stdlib hmac + struct, written from RFC 4226) is correct",
-          "tokens are submitted as ASCII digit strings (possibly decorated with blanks/dashes), ASCII bytes or non-negative ints"],
+          "tokens are submitted as ASCII digit strings (possibly decorated with blanks/dashes), ASCII bytes or ints (negative ints and digits of other scripts are submitted as not-a-code and must be refused as malformed)"],
     "C14": ["the reference matcher encodes the statement of C14 literally; t is the integer the server's clock returned"],
     "C15": ["labels/issuers contain no ':' and no leading/trailing blanks (the KeyURI format strips them)"],
 }
@@ -217,7 +217,7 @@ def generate(rng, prop, tier):
         elif k == "attack":
             ops.append({"op": "attack", "acct": rng.randrange(n_acct),
                         "kind": rng.choice(["replay", "replay", "neighbour", "neighbour", "corrupt", "wrong_length",
-                                            "letters", "empty", "last_counter_code", "future", "bytes_junk"]),
+                                            "letters", "empty", "last_counter_code", "future", "bytes_junk", "not_a_code"]),
                         "arg": rng.randint(-4, 4), "pos": rng.randint(0, 9), "digit": rng.randint(0, 9),
                         "tmode": rng.choice(["now", "now", "int", "float", "dt"])})
         elif k == "match_params":
@@ -892,6 +892,15 @@ class _World:
             t = ref_hotp(acct["key"], cur, a["alg"], a["digits"]).encode("ascii")
             p = op["pos"] % (len(t) + 1)
             token = t[:p] + [b"\xff", b"\xe2\x80\x93", b"\xc3"][op["digit"] % 3] + t[p:]
+            ctx.fault("attack_corrupt")
+        elif kind == "not_a_code":
+            # (F46) the CURRENT code spelled so that a lenient reader takes it for a code of the right length: a negative int
+            # whose rendering has exactly `digits` characters, or the code in decimal digits of another script
+            t = ref_hotp(acct["key"], cur, a["alg"], a["digits"])
+            token = [-(int(t) % 10 ** (a["digits"] - 1)), -int(t),
+                     t.translate({48 + i: 0x0660 + i for i in range(10)}),
+                     t.translate({48 + i: 0xFF10 + i for i in range(10)}),
+                     t[:-1] + "\u00b2"][op["pos"] % 5]
             ctx.fault("attack_corrupt")
         else:
             return
